@@ -1,3 +1,12 @@
--- This module serves as the root of the `KmipModel` library.
--- Import modules here that should be built as part of the library.
-import KmipModel.Basic
+-- Root of the `KmipModel` library: everything `lake build` (setup.sh) compiles.
+import KmipModel.Policy
+import KmipModel.TableTypes
+import KmipModel.Gen.Tables
+import KmipModel.Engine.Batch
+import KmipModel.Props.C03
+import KmipModel.Props.C03Engine
+import KmipModel.Props.C04
+import KmipModel.Props.C07
+import KmipModel.Props.C08
+import KmipModel.Props.C11
+import KmipModel.Props.C15
